@@ -4,4 +4,5 @@ set -e
 cd "$(dirname "$0")"
 export CARGO_NET_OFFLINE=true
 (cd harness && cargo build --release --offline)
+(cd harness_e5 && ./gen_shim.sh && cargo build --release --offline)
 echo "setup done"
